@@ -217,7 +217,12 @@ impl Quil for CalibrationIdentifier {
         f: &mut impl std::fmt::Write,
         fall_back_to_debug: bool,
     ) -> crate::quil::ToQuilResult<()> {
-        write!(f, "DEFCAL {}", self.name)?;
+        write!(f, "DEFCAL ")?;
+        for modifier in &self.modifiers {
+            modifier.write(f, fall_back_to_debug)?;
+            write!(f, " ")?;
+        }
+        write!(f, "{}", self.name)?;
         write_expression_parameter_string(f, fall_back_to_debug, &self.parameters)?;
         write_qubit_parameters(f, fall_back_to_debug, &self.qubits)?;
         Ok(())
